@@ -969,6 +969,21 @@ def o_C12(I, ref_len):
             out.append((I.name, op.seg, f'op{op.id}: refused for its size but {len(op.w)} packet(s) were written'))
         if not too_big and op.w and len(op.w[0][2]) != L:
             out.append((I.name, op.seg, f'op{op.id}: wrote {len(op.w[0][2])} bytes, reference {L}'))
+    # "if L <= M, or no M was announced, the packet is written in full": a request that fits and was handed to a serving
+    # context is on the wire at the end of a script that never holds / drops / faults the context
+    ks = [e['kind'] for e in I.events]
+    if not any(k in ('hold', 'drop', 'dropctx', 'dropfut', 'eof', 'panic', 'markdisc') for k in ks) and 'werr' not in I.cfg and 'wzero' not in I.cfg:
+        ended = [e['seg'] for e in I.events if e['kind'] == 'ret' and e['call'] == 'run']
+        for op in I.ops.values():
+            if op.w or not op.polled or op.done is not None and op.done[1].startswith('err '):
+                continue
+            nsub = len([o for o in I.ops.values() if o.kind == 'SUBSCRIBE' and o.id <= op.id])
+            L = ref_len.get(op.id) or request_len(op, max(nsub, 1))
+            M = ([None] + [v for sg, v in announced if sg <= op.seg])[-1]
+            legit_end = [sg for sg in ended if sg <= op.seg]
+            if L is not None and (M is None or L <= M) and not legit_end:
+                why = f'run() had returned at segment {ended[0]}' if ended else 'run() is still serving'
+                out.append((I.name, op.seg, f'op{op.id} {op.kind}: packet of {L} bytes fits Maximum Packet Size {M} but was never written ({why})'))
     return out
 
 
@@ -1000,7 +1015,16 @@ def o_C13(I):
         if k == 'ret' and e['call'] == 'run':
             limited = 'werr' in I.cfg or 'wzero' in I.cfg
             if e['text'] == 'err HandleClosed':
-                live = any(x['kind'] == 'start' and x['op'].done is None and x['op'].dropped is None for x in I.events[:n])
+                handles = {'h0'}
+                for x in I.events[:n]:
+                    if x['kind'] == 'clone':
+                        handles.add(x['toks'][1])
+                    if x['kind'] == 'drophandle':
+                        handles.discard(x['toks'][0])
+                live = [x['op'].id for x in I.events[:n] if x['kind'] == 'start' and x['op'].kind != 'STREAMX'
+                        and (x['op'].done is None or x['op'].done[0] >= e['seg']) and (x['op'].dropped is None or x['op'].dropped >= e['seg'])]
+                if handles:
+                    out.append((I.name, e['seg'], f"run() returned HandleClosed although handle(s) {sorted(handles)} exist"))
                 continue
             if cause is None:
                 if not (limited and e['text'] == 'err SocketClosed'):
